@@ -48,7 +48,7 @@ RULE = ("left documents x merge paths x right documents x policies.  Small part:
         "missing keys, right documents that are mappings holding arrays / arrays-of-hashes, arrays, arrays-of-hashes, scalars; "
         "judged on the real code alone: where the real optional query (run on a twin) creates the tail, the merged document "
         "holds exactly the right-hand document there, and apart from the created nodes (and the targets that existed, which are "
-        "not judged in this part) it equals the left document as data; the merge must not be refused.  strip_path_prefix is compared with the model on a grid of key paths.  Random part: 160 000 cases "
+        "not judged in this part) it equals the left document as data; the merge must not be refused.  Sequences on ONE Merger / MergerConfig (12 000 quick): one or two earlier steps - a merge at the root (often under a right / unique policy, which replaces the root object), an aimed merge, or an assignment to Merger.data - with mergeat and policies rewritten per step, then an ordinary aimed merge judged like every other case on the document that step starts from (computed with a fresh Merger per step; sequences that leave one container object at two places are counted out of model).  Empty left document with a path through a search that nothing can match (600 API cases, 80 yaml-merge runs with an empty left file): a merge / YAML Path error, non-zero exit and no output file are demanded.  Created tails include keys with dots (dot notation escapes them); a Hash above a created node may gain only the one key the path names.  strip_path_prefix is compared with the model on a grid of key paths.  Random part: 160 000 cases "
         "(quick) / 300 000 (thorough; trimmed from 2 000 000 - a random case costs ~12 small-layer cases and the thorough run needed "
         "> 14 000 CPU-seconds, > 45 min on the shared machine; the complete small layers are untouched).  distinct_nontrivial = "
         "distinct (l, path, r, policy) cases whose result differs from the left document.")
@@ -1226,7 +1226,7 @@ def cli_checks(chk, cases):
     chk.count("cli:failed-merges", n_fail)
     chk.count("cli:successful-merges", n_ok)
 
-def emptyleft_cli_checks(chk, n):
+def emptyleft_cli_checks(chk, n, fixed=None):
     """yaml-merge with an EMPTY left file (a lone `---`, `--- # comment`, `null`) and a merge path that nothing can match
     and that cannot be created: the tool must exit non-zero and write no output file."""
     import yamlpath.commands.yaml_merge as ym
@@ -1237,6 +1237,8 @@ def emptyleft_cli_checks(chk, n):
         for i in range(n):
             case = emptyleft_case(rng)
             ltext = rng.choice(["---\n", "--- # nothing yet\n", "null\n", "---\n...\n", "~\n"])
+            if fixed is not None:
+                case, ltext = fixed
             lf, rf, of = [os.path.join(tmp, "%s%d.yaml" % (nm, i)) for nm in ("l", "r", "o")]
             try:
                 dump_yaml(case["r"], rf)
@@ -1510,6 +1512,8 @@ def run(chk: core.Check):
                                      "impl": im if "ok" not in im else show(im["ok"])}))
         if c.get("argv") and c.get("ltext") is None:
             cli_checks(chk, [case])
+        elif c.get("ltext") is not None:
+            emptyleft_cli_checks(chk, 1, fixed=(case, c["ltext"]))
     else:
         table_checks(chk)
         lb = int(os.environ.get("YPV_EXH_BOUND") or 3)   # developer override only
